@@ -41,8 +41,11 @@ class ExtendBlockSizePass(BasePass):
         minimum_size = self.minimum_size
         if minimum_size is None:
             minimum_size = min(
-                g.num_qudits for g in data.gate_set
-                if g.num_qudits != 1
+                (
+                    g.num_qudits for g in data.gate_set
+                    if g.num_qudits != 1
+                ),
+                default=None,
             )
 
         if minimum_size is None:
